@@ -58,6 +58,15 @@ def recorded(chk, n, only):
                       dict(family="chainrec", seed=chk.seed, n=n, line=bad))
 
 
+LIBS = ["FH", "FM", "BN", "BB", "BO", "TF", "TI"]
+
+
+def library(chk, only, maxn=3, extra=("N",), hooks=("none",), kinds=("route", "notfound")):
+    """pkg/handlers middleware (IgnoreFavIcon, HTTPBasicAuth, Timeout) called inside handlers: the model expands them into
+    primitive ops (RuxChainFn.LibOps), the harness calls the real functions"""
+    instance(chk, "library", "all", 1, maxn, list(extra) + LIBS, kinds=kinds, only=only, hooks=hooks, extra_invs=("DispatchOK",))
+
+
 def neg_creeps(chk):
     r = core.run_tlc("MC_Chain", cfg_text=ccfg("uniform", 40, 63, ["NN"], emit=False, D_NextCreeps=True), timeout=600)
     chk.expect_fails(r, "MC_Chain[D_NextCreeps] uniform NN n<=63 (int8 overflow)", None)
@@ -91,6 +100,7 @@ def run(chk):
         instance(chk, "odd", "odd", 2, 63, ["R", "NN"], base="N")
     else:
         instance(chk, "odd", "odd", 44, 47, ["R", "NN"], base="N")
+    library(chk, ORDER, maxn=3 if thorough else 2, extra=("N", "R"))
     chk.exhaustive = True
     recorded(chk, 3000 if thorough else 400, ORDER)
     if thorough:   # the composition: registration programs with scripted handlers + request histories on a caching router
